@@ -1,7 +1,7 @@
 (* C17 — Pull, peek and push interfaces tell the same story.
    Model: Model/Wrapper.v — Parser::peek / next_event / next_event_impl over an ABSTRACT deterministic core
    (Section variables: the theorems hold for every core, hence for the real state machine). *)
-From Coq Require Import List Bool Arith.
+From Coq Require Import List Bool Arith NArith.
 Import ListNotations.
 Require Import Wrapper WrapperProofs.
 
@@ -33,7 +33,29 @@ Example C17_example :
   = [Some (inl 0); Some (inl 0); Some (inl 0); Some (inl 1); Some (inl 2); Some (inl 2); None; None].
 Proof. reflexivity. Qed.
 
-(* The push interface (Parser::load) is covered by the correspondence run only (implementation vs implementation:
-   same events, spans and error as the iterator, for multi = true and repeated multi = false); the refinement
-   "recursive-descent load = flat iteration under the event grammar" is not yet a theorem. *)
-Definition C17_push_full : Prop := True.
+(* The push interface.  Model: Model/PushLoad.v (load / load_document / load_node / load_sequence / load_mapping as
+   recursive functions over the iteration's results).  For EVERY list of iteration results that is a prefix of an
+   event sentence and ends in an error (C02_run proves the prefix property of the parser for every token stream;
+   for a complete stream the final error is a sentinel that is never reached): load(multi = true) either pushes a
+   complete sentence - every event up to and including StreamEnd - and returns Ok, or stops at the iteration's first
+   error having pushed exactly the events before it, returning that very error.  It never panics and never reports
+   an error of its own. *)
+Require Import Parser Grammar PushLoad PushLoadProofs.
+Theorem C17_push_is_iteration : forall rs fuel,
+  Pref GInit rs -> has_err rs = true -> 2 * length rs + 4 <= fuel ->
+  good [] rs (fun consumed _ => grun GInit (kinds consumed) = Some GEnd) (load_multi fuel rs).
+Proof. exact load_multi_is_iteration. Qed.
+Print Assumptions C17_push_is_iteration.
+
+Example C17_push_example :
+  let sp := span_empty {| m_index := 0; m_line := 1; m_col := 0 |} in
+  let evs := [(EStreamStart, sp); (EDocumentStart false, sp); (EMappingStart 0 None, sp); (EScalar [97%N] Plain 1 None, sp);
+              (ESequenceStart 0 None, sp); (EAlias 1, sp); (ESequenceEnd, sp); (EMappingEnd, sp); (EDocumentEnd, sp); (EStreamEnd, sp)] in
+  load_multi 100 (map inl evs ++ [inr PErrScan]) = LDone (rev evs) [inr PErrScan].
+Proof. reflexivity. Qed.
+Example C17_push_example_error :
+  let sp := span_empty {| m_index := 0; m_line := 1; m_col := 0 |} in
+  let evs := [(EStreamStart, sp); (EDocumentStart false, sp); (ESequenceStart 0 None, sp); (EScalar [97%N] Plain 0 None, sp)] in
+  load_multi 100 (map inl evs ++ [inr (PErr 7 {| m_index := 3; m_line := 1; m_col := 3 |})])
+  = LFail (PErr 7 {| m_index := 3; m_line := 1; m_col := 3 |}) (rev evs).
+Proof. reflexivity. Qed.
